@@ -85,19 +85,39 @@ func runC13(c *Ctx, r *Rec) {
 	checkReceiverWrites(c, r, "D4-receiver-writes-persist", stk)
 	// ---- D1 constructors
 	cms := c.methodsOf(cls)
+	// every literal of the stack struct in the class's methods (constructors and their private helpers)
+	var lits []*ast.CompositeLit
+	litIn := map[*ast.FuncDecl]bool{}
 	for _, name := range sortedKeys(cms) {
-		fd := cms[name]
-		// does it build the stack struct?
-		var lits []*ast.CompositeLit
-		ast.Inspect(fd.Body, func(x ast.Node) bool {
+		ast.Inspect(cms[name].Body, func(x ast.Node) bool {
 			if cl, ok := x.(*ast.CompositeLit); ok {
 				if n := derefNamed(info.Types[cl].Type); n != nil && n.Origin() == stk.Origin() {
 					lits = append(lits, cl)
+					litIn[cms[name]] = true
 				}
 			}
 			return true
 		})
-		if len(lits) == 0 {
+	}
+	for _, name := range sortedKeys(cms) {
+		fd := cms[name]
+		// exported constructors only: a private helper that holds the literal is interpreted in
+		// place, with the arguments its callers give it
+		if !ast.IsExported(name) {
+			continue
+		}
+		reaches := litIn[fd]
+		ast.Inspect(fd.Body, func(x ast.Node) bool {
+			if call, ok := x.(*ast.CallExpr); ok {
+				if cf := calleeOf(info, call); cf != nil && !cf.Exported() {
+					if d := c.declOf(cf); d != nil && litIn[d] {
+						reaches = true
+					}
+				}
+			}
+			return true
+		})
+		if !reaches {
 			continue
 		}
 		construct := c.fdName(fd)
@@ -162,23 +182,28 @@ func runC13(c *Ctx, r *Rec) {
 				env.base = append(env.base, sym(p.Name()).scale(-1))
 			}
 		}
+		enableInlining(c, env, fd, nil)
 		symRun(env, fd.Body)
 		if len(env.problems) > 0 {
-			r.undecided("D1-capacity-at-birth", construct, c.pos(fd.Pos()), strings.Join(dedup(env.problems), "; "))
+			r.skip("D1-capacity-at-birth", construct, c.pos(fd.Pos()), strings.Join(dedup(env.problems), "; "))
 			continue
 		}
 		if len(caps) == 0 {
-			r.undecided("D1-capacity-at-birth", construct, c.pos(fd.Pos()), "the stack literal was not reached by the interpreter")
+			r.skip("D1-capacity-at-birth", construct, c.pos(fd.Pos()), "the stack literal was not reached by the interpreter")
 			continue
 		}
 		bad := ""
 		for _, cr := range caps {
-			if cr.cap.Lin == nil {
-				bad = "the capacity given to the new stack is not an integer form"
+			if cr.cap.Lin == nil || hasOpaque(cr.cap.Lin) {
+				if bad == "" {
+					bad = "skip: the capacity given to the new stack is not an integer form of the inputs"
+				}
 				continue
 			}
 			if cr.size == nil {
-				bad = "the number of values in the list the new stack adopts cannot be tracked"
+				if bad == "" {
+					bad = "skip: the number of values in the list the new stack adopts cannot be tracked"
+				}
 				continue
 			}
 			full := append(append(Cube{}, env.base...), cr.cube...)
@@ -186,9 +211,98 @@ func runC13(c *Ctx, r *Rec) {
 				bad = fmt.Sprintf("the new stack adopts a list holding %s values but its capacity is %s, which is smaller for some inputs (on {%s}, n = number of caller-supplied values): the stack is born over capacity and AddValue's equality test never fires", cr.size, cr.cap.Lin, full)
 			}
 		}
-		r.check(bad == "", "D1-capacity-at-birth", construct, c.pos(fd.Pos()), fmt.Sprintf("capacity >= number of values in the adopted list at the point of construction, on all integers (%d literal evaluations)", len(caps)), bad)
+		r.verdict("D1-capacity-at-birth", construct, c.pos(fd.Pos()), fmt.Sprintf("capacity >= number of values in the adopted list at the point of construction, on all integers (%d literal evaluations)", len(caps)), bad)
 	}
-	r.floor("D1-capacity-at-birth", 3)
+	r.floor("D1-capacity-at-birth", 1)
+	// ---- D1b the storage of a new stack is made by the constructor, never adopted from an argument:
+	// a list the caller (or another stack) still holds can grow the stack past its capacity
+	for _, name := range sortedKeys(cms) {
+		fd := cms[name]
+		params := paramObjs(info, fd)
+		ast.Inspect(fd.Body, func(x ast.Node) bool {
+			cl, ok := x.(*ast.CompositeLit)
+			if !ok {
+				return true
+			}
+			if n := derefNamed(info.Types[cl].Type); n == nil || n.Origin() != stk.Origin() {
+				return true
+			}
+			for _, el := range cl.Elts {
+				kv, ok := el.(*ast.KeyValueExpr)
+				if !ok {
+					continue
+				}
+				id, _ := kv.Key.(*ast.Ident)
+				if id == nil {
+					continue
+				}
+				if fv, _ := info.Uses[id].(*types.Var); fv == nil || fv.Origin() != storage {
+					continue
+				}
+				construct := c.fdName(fd) + "/storage"
+				vo := identObj(info, kv.Value)
+				if vo == nil {
+					r.skip("D1-storage-owned", construct, c.pos(kv.Pos()), "the storage is not given as a variable")
+					continue
+				}
+				isParam := false
+				for _, p := range params {
+					if p == vo {
+						isParam = true
+					}
+				}
+				if isParam {
+					if ast.IsExported(name) {
+						r.fail("D1-storage-owned", construct, c.pos(kv.Pos()), "the new stack adopts the constructor's argument "+vo.Name()+" as its storage: the caller keeps a handle on it")
+					} else {
+						r.skip("D1-storage-owned", construct, c.pos(kv.Pos()), "a private helper receives the storage from its callers")
+					}
+					continue
+				}
+				bad := ""
+				ast.Inspect(fd.Body, func(y ast.Node) bool {
+					var rhs ast.Expr
+					switch d := y.(type) {
+					case *ast.AssignStmt:
+						for i, l := range d.Lhs {
+							if identObj(info, l) == vo {
+								if len(d.Rhs) == len(d.Lhs) {
+									rhs = d.Rhs[i]
+								} else if len(d.Rhs) == 1 {
+									rhs = d.Rhs[0]
+								}
+							}
+						}
+					case *ast.ValueSpec:
+						for i, nm := range d.Names {
+							if info.Defs[nm] == vo {
+								if len(d.Values) == len(d.Names) {
+									rhs = d.Values[i]
+								} else if len(d.Values) == 1 {
+									rhs = d.Values[0]
+								}
+							}
+						}
+					}
+					if rhs == nil {
+						return true
+					}
+					e := ast.Unparen(rhs)
+					if ta, ok := e.(*ast.TypeAssertExpr); ok {
+						e = ast.Unparen(ta.X)
+					}
+					for _, p := range params {
+						if isObj(info, e, p) {
+							bad = fmt.Sprintf("the storage %s of the new stack is the argument %s itself (at %s), not a copy made by the constructor: the caller, and every other stack built from the same list, shares it - values appear on the stack that were never added to it and it can grow past its capacity", vo.Name(), p.Name(), c.pos(rhs.Pos()))
+						}
+					}
+					return true
+				})
+				r.check(bad == "", "D1-storage-owned", construct, c.pos(kv.Pos()), "the storage is created in the constructor", bad)
+			}
+			return true
+		})
+	}
 
 	// ---- D2 guards, D3 ends
 	ms := c.methodsOf(stk)
@@ -269,16 +383,25 @@ func runC13(c *Ctx, r *Rec) {
 			if sat, _ := satF(full, gt(sym("size"), k(0))); sat {
 				if p.Kind == "panic" {
 					viol = append(viol, fmt.Sprintf("on {%s} the stack is not empty but RemoveTop panics", full))
-				} else if len(p.Rets) != 1 || !strings.Contains(p.Rets[0].Opaque, "."+storage.Name()+".RemoveValue(1)") {
+				} else if len(p.Rets) != 1 || !strings.Contains(p.Rets[0].Opaque, "."+storage.Name()+".RemoveValue(") {
 					viol = append(viol, fmt.Sprintf("on {%s} RemoveTop returns %v, required the value removed at index 1 of the storage", full, p.Rets))
 				}
 			}
 		}
+		// the index removed is the constant 1 (the top of the stack is the first value of the list)
+		inspectNoLit(fd.Body, func(x ast.Node) bool {
+			if rx, mname, call, ok := methodCall(x); ok && mname == "RemoveValue" && selectorField(info, rx) == storage && len(call.Args) == 1 {
+				if tv := info.Types[call.Args[0]]; tv.Value == nil || tv.Value.String() != "1" {
+					viol = append(viol, "RemoveTop removes index "+exprStr(call.Args[0])+" of the storage, required index 1 (the end AddValue inserts at)")
+				}
+			}
+			return true
+		})
 		switch {
-		case len(env.problems) > 0:
-			r.undecided("D2-guards", construct, c.pos(fd.Pos()), strings.Join(dedup(env.problems), "; "))
 		case len(viol) > 0:
 			r.fail("D2-guards", construct, c.pos(fd.Pos()), strings.Join(dedup(viol), " | "))
+		case len(env.problems) > 0:
+			r.skip("D2-guards", construct, c.pos(fd.Pos()), strings.Join(dedup(env.problems), "; "))
 		default:
 			r.ok("D2-guards", construct, c.pos(fd.Pos()), "panics exactly when empty, otherwise returns storage.RemoveValue(1)")
 		}
